@@ -228,14 +228,7 @@ func checkC13(c *Ctx) {
 			r.Check(okH && nH > 0, "C13.timeout-guard", "height-writer:"+fname(f), p.Pos(f.Pos()), "genesis import restores the exported external height", "the genesis import does not restore the observed external height from the exported ExternalHeight: after a restart timeouts are compared with a height the external chain never reported")
 			continue
 		}
-		callsProcess := false
-		ana.Calls(f, func(site ssa.CallInstruction, d ana.CalleeDesc) {
-			for _, callee := range p.Callees(site) {
-				if c.isProcessFn(callee, "mhub2") {
-					callsProcess = true
-				}
-			}
-		})
+		callsProcess := len(c.procSites(f, "mhub2")) > 0
 		okVal := false
 		for _, e := range ws[f] {
 			if site, ok := e.At.(ssa.CallInstruction); ok {
